@@ -224,6 +224,8 @@ def diff(e: E, x: str) -> E:
         return C(0)
     if op == "v":
         return C(1) if e.args[0] == x else C(0)
+    if op == "sgnmul":
+        return E("sgnmul", e.args[0], diff(e.args[1], x))  # away from the kink the factor sign(a) is constant
     if op == "atan2":
         y, x_ = e.args
         return div(add(mul(x_, diff(y, x)), neg(mul(y, diff(x_, x)))), add(mul(x_, x_), mul(y, y)))
@@ -271,8 +273,8 @@ def diff(e: E, x: str) -> E:
             return neg(mul(div(cos(a), mul(sin(a), sin(a))), da))
         if name == "cot":
             return neg(div(da, mul(sin(a), sin(a))))
-        if name == "abs":  # away from a == 0
-            return pw(a, da, neg(da))
+        if name == "abs":  # sign(a) * da; undefined at a == 0 (recorded as a domain condition by to_z3)
+            return E("sgnmul", a, da)
         if name == "atan":
             return div(da, add(C(1), mul(a, a)))
         if name == "asin":
@@ -334,6 +336,12 @@ def to_z3(e: E, env, denoms=None, domain=None):
         return qval(e.args[0])
     if op == "v":
         return env[e.args[0]]
+    if op == "sgnmul":
+        a_ = to_z3(e.args[0], env, denoms, domain)
+        d_ = to_z3(e.args[1], env, denoms, domain)
+        if domain is not None:
+            domain.append(a_ != 0)
+        return z3.If(a_ > 0, d_, -d_)
     if op == "atan2":
         return uf("atan2", 2)(to_z3(e.args[0], env, denoms, domain), to_z3(e.args[1], env, denoms, domain))
     if op == "k":
@@ -398,6 +406,9 @@ def evalf(e: E, env):
         return float(e.args[0])
     if op == "v":
         return float(env[e.args[0]])
+    if op == "sgnmul":
+        a_ = evalf(e.args[0], env)
+        return evalf(e.args[1], env) if a_ > 0 else (-evalf(e.args[1], env) if a_ < 0 else math.nan)
     if op == "atan2":
         return math.atan2(evalf(e.args[0], env), evalf(e.args[1], env))
     if op == "k":
@@ -455,6 +466,8 @@ def evalmag(e: E, env):
             return evalmag(e.args[0], env) ** n
         b = evalf(e.args[0], env)
         return abs(b) ** n if b else math.inf
+    if op == "sgnmul":
+        return evalmag(e.args[1], env)
     if op in ("max", "min", "pw", "fn", "atan2"):
         return abs(evalf(e, env))
     raise NotImplementedError(op)
